@@ -148,6 +148,8 @@ class C14(CheckBase):
 
     def budget(self, tier: str) -> dict:
         b = super().budget(tier)
+        if tier != "thorough":
+            b["seconds"] = 70       # schedules are the expensive kind of run
         return b
 
     # -- generation ------------------------------------------------------------
